@@ -8,6 +8,7 @@ import (
 	"runtime/debug"
 	"sort"
 	"strings"
+	"testing"
 )
 
 // Violation is what an oracle reports. Class is the stable identity of the
@@ -164,3 +165,7 @@ func Guard(f func()) (p any) {
 	f()
 	return nil
 }
+
+// T is the *testing.T of the dispatcher test (the harness is a test binary so
+// that engines may use testing/synctest).
+var T *testing.T
